@@ -51,6 +51,9 @@ pub struct Verdict {
   pub combo: String,
   /// 0-based column-major positions the statement addresses in its target (indexed forms)
   pub addressed: Vec<usize>,
+  /// the resulting values are not pinned down (After::Unknown), but the frame is: only the
+  /// addressed positions of the target may change, its shape and element kind may not
+  pub frame_only: bool,
 }
 
 pub enum Ev { Val(SV), Fail(String), Unsure }
@@ -371,16 +374,16 @@ impl Model {
 
   fn verdict(&self, must: Must, after: After, combo: String) -> Verdict {
     let must = if must == Must::Ok && !self.supported.contains(&combo) { Must::Either } else { must };
-    Verdict { must, err_names: vec![], ret: None, ret_flat: false, after, fault: None, combo, addressed: vec![] }
+    Verdict { must, err_names: vec![], ret: None, ret_flat: false, after, fault: None, combo, addressed: vec![], frame_only: false }
   }
   fn must_err(&self, fault: &str, combo: String) -> Verdict {
-    Verdict { must: Must::Err, err_names: vec![], ret: None, ret_flat: false, after: After::Same, fault: Some(fault.to_string()), combo, addressed: vec![] }
+    Verdict { must: Must::Err, err_names: vec![], ret: None, ret_flat: false, after: After::Same, fault: Some(fault.to_string()), combo, addressed: vec![], frame_only: false }
   }
   fn either_unknown(&self, name: &str, fault: &str, combo: String) -> Verdict {
-    Verdict { must: Must::Either, err_names: vec![], ret: None, ret_flat: false, after: After::Unknown(name.to_string(), self.store.clone()), fault: Some(fault.to_string()), combo, addressed: vec![] }
+    Verdict { must: Must::Either, err_names: vec![], ret: None, ret_flat: false, after: After::Unknown(name.to_string(), self.store.clone()), fault: Some(fault.to_string()), combo, addressed: vec![], frame_only: false }
   }
   fn either_same(&self, fault: &str, combo: String) -> Verdict {
-    Verdict { must: Must::Either, err_names: vec![], ret: None, ret_flat: false, after: After::Same, fault: Some(fault.to_string()), combo, addressed: vec![] }
+    Verdict { must: Must::Either, err_names: vec![], ret: None, ret_flat: false, after: After::Same, fault: Some(fault.to_string()), combo, addressed: vec![], frame_only: false }
   }
 
   /// Checks shared by every writing statement, in the order the properties imply: the three
@@ -414,7 +417,7 @@ impl Model {
                 // an annotation the model cannot follow (or that cannot convert): f7
                 let mut st = s.clone();
                 st.insert(name.clone(), Binding { mutable: *mutable, v: SV::Empty, origin: format!("define-annot<-{}", e.form()), src: e.vars().first().map(|s| s.to_string()) });
-                Verdict { must: Must::Either, err_names: vec![], ret: None, ret_flat: false, after: After::Unknown(name.clone(), st), fault: Some("f7-annotation".into()), combo, addressed: vec![] }
+                Verdict { must: Must::Either, err_names: vec![], ret: None, ret_flat: false, after: After::Unknown(name.clone(), st), fault: Some("f7-annotation".into()), combo, addressed: vec![], frame_only: false }
               }
               Some(v2) => {
                 let mut st = s.clone();
@@ -495,7 +498,13 @@ impl Model {
               return if matches!(sub, Sub::One(Ix::V(_)) | Sub::One(Ix::R(..)) | Sub::One(Ix::RX(..)) | Sub::One(Ix::All)) { self.must_err("f6-vector-source-too-short", combo) } else { self.either_unknown(name, "f6-vector-source-too-short", combo) };
             }
             if vector && one && sd.len() != pos.len() { return self.either_unknown(name, "vector-source-length-mismatch", combo); }
-            if !vector || !one || distinct.len() != pos.len() { return self.either_unknown(name, "unsure-vector-source", combo); }
+            if !vector || !one || distinct.len() != pos.len() {
+              // which source element lands where is not stated by C04 for these forms; that nothing
+              // but the addressed elements changes is
+              let mut v = self.either_unknown(name, "unsure-vector-source", combo);
+              v.addressed = pos; v.frame_only = true;
+              return v;
+            }
             for (i, p) in pos.iter().enumerate() { nd[*p] = sd[i].clone(); }
             let mut st = s.clone();
             st.get_mut(name).unwrap().v = SV::Mat(ek.clone(), r, c, nd);
@@ -570,6 +579,7 @@ impl Model {
             let srcs: Vec<SV> = match &val {
               sv if sv.is_scalar() => vec![sv.clone(); pos.len()],
               SV::Mat(_, sr, sc, sd) if (*sr == 1 || *sc == 1) && sd.len() == pos.len() && matches!(sub, Sub::One(_)) => sd.clone(),
+              SV::Mat(sk, ..) if sk == ek => { let mut v = self.either_unknown(name, "unsure-vector-source", combo); v.addressed = pos; v.frame_only = true; return v; }
               _ => return self.either_unknown(name, "unsure-vector-source", combo),
             };
             if srcs[0].kind_tag() != *ek {
